@@ -9,7 +9,8 @@ Local Open Scope R_scope.
     products / quotients of exponentials are first merged) *)
 Ltac solve_exp :=
   first [ apply (f_equal exp); ring
-        | rewrite <- ?exp_plus, <- ?exp_Ropp; apply (f_equal exp); ring ].
+        | rewrite <- ?exp_plus, <- ?exp_Ropp; apply (f_equal exp); ring
+        | unfold Rdiv; repeat first [ rewrite <- exp_Ropp | rewrite <- exp_plus ]; apply (f_equal exp); ring ].
 
 Lemma tie_alpha_pop pa na pr nr t : gen_alpha_pop pa na pr nr t = alpha pa na pr nr t.
 Proof. unfold gen_alpha_pop, alpha, Dval. solve_exp. Qed.
@@ -25,9 +26,20 @@ Ltac abstract_exps :=
          | |- context [exp ?x] => generalize (exp_pos x); generalize (exp x); intros ? ?
          end.
 
+(** the OUTER form of the rule may be any product / quotient of exponentials (likelihood ratio x tempered prior ratio, ...):
+    over R it is merged into one exponential by exp_plus / exp_Ropp before the exponents are compared, so an algebraically
+    equal rewriting of the acceptance does not break the tie (its float evaluation is a matter for the decision search) *)
+Ltac merge_outer :=
+  repeat match goal with
+         | |- exp _ = exp _ => fail 1
+         | |- exp ?a * exp ?b = _ => rewrite <- (exp_plus a b)
+         | |- exp ?a / exp ?b = _ => unfold Rdiv at 1; rewrite <- (exp_Ropp b)
+         | |- / exp ?a = _ => rewrite <- (exp_Ropp a)
+         end.
+
 Ltac solve_mix :=
   cbv beta delta [alpha_mix alpha Dval cluster_weighted resp_weights resp_logit dot sum_R map fold_right] iota zeta;
-  apply (f_equal exp); abstract_exps; field; repeat split; lra.
+  merge_outer; apply (f_equal exp); abstract_exps; field; repeat split; lra.
 
 Lemma tie_alpha_ind_mix2 pa na s00 s01 r00 r01 s10 s11 r10 r11 t :
   gen_alpha_ind_mix2 pa na s00 s01 r00 r01 s10 s11 r10 r11 t = alpha_mix pa na [s00; s01] [r00; r01] [s10; s11] [r10; r11] t.
